@@ -116,13 +116,14 @@ mod imp {
    fn as_set(v: &[(u8, u8)]) -> Pairs { v.iter().cloned().collect() }
    fn no_dups(v: &[(u8, u8)]) -> bool { as_set(v).len() == v.len() }
 
-   /// codes: 0 stop (only zeros may follow), 1..=16 the rule derives the pair (a, b), 17 end of the iteration (merge)
+   /// codes: 0 stop (only zeros may follow), 1..=16 the rule derives the pair (a, b), 17 end of the iteration (merge),
+   /// 18 end of the stratum (two closing merges, total goes back to the field, the next stratum starts with it as delta)
    pub fn protocol<const L: usize>(s: &mut dyn Src, r: &mut Report) {
       let mut ops = vec![];
       let mut stopped = false;
       for _ in 0..L {
          let c = s.byte();
-         s.require(c <= 17 && (!stopped || c == 0));
+         s.require(c <= 18 && (!stopped || c == 0));
          if c == 0 {
             stopped = true;
          } else {
@@ -135,7 +136,7 @@ mod imp {
       // two closing iterations so that everything offered reaches total
       ops.push(17);
       ops.push(17);
-      r.note(format!("codes (1 + 4a + b = derive (a, b); 17 = end of iteration) = {:?}", ops));
+      r.note(format!("codes (1 + 4a + b = derive (a, b); 17 = end of iteration; 18 = end of stratum) = {:?}", ops));
       let mut new = EqRelIndCommon::<u8>::default();
       let mut delta = EqRelIndCommon::<u8>::default();
       let mut total = EqRelIndCommon::<u8>::default();
@@ -144,8 +145,28 @@ mod imp {
       let mut offered = Pairs::new(); // everything derived so far
       let mut offered_before = Pairs::new(); // everything derived before the current iteration
       let mut new_this_iter = Pairs::new(); // pairs that got past the guard in the current iteration
-      let mut known_prev = Pairs::new(); // closure of what had been merged one iteration earlier (= expected total)
+      let mut stratum_base = Pairs::new(); // what the current stratum started with (it sits in delta first, total starts empty)
+      let mut fresh_stratum = true; // no merge yet in this stratum
+      // expanded event list: 18 = merge, merge, restart
+      let mut evs = vec![];
       for &c in &ops {
+         if c == 18 {
+            evs.extend([17, 17, 18]);
+         } else {
+            evs.push(c);
+         }
+      }
+      for &c in &evs {
+         if c == 18 {
+            // generated code: `_self.field = total` at the end of a stratum, `delta = take(field); total = default; new = default` at the start of the next
+            delta = std::mem::take(&mut total);
+            new = EqRelIndCommon::<u8>::default();
+            stratum_base = closure(&offered_before);
+            fresh_stratum = true;
+            let d = read(&delta);
+            chk!(r, "stratum_start_delta_is_everything_known", d.full_contains == stratum_base && as_set(&d.none_get) == stratum_base && d.ind0_get == stratum_base);
+            continue;
+         }
          if c <= 16 {
             let row = ((c - 1) / 4, (c - 1) % 4);
             offered.insert(row);
@@ -162,6 +183,8 @@ mod imp {
          } else {
             RelIndexMerge::merge_delta_to_total_new_to_delta(&mut new, &mut delta, &mut total);
             let c_prev = closure(&offered_before); // what delta+total held before this merge
+            let _ = (&stratum_base, fresh_stratum);
+            fresh_stratum = false;
             offered_before = offered.clone();
             let c_now = closure(&offered_before);
             new_this_iter.clear();
@@ -179,8 +202,6 @@ mod imp {
             chk!(r, "delta_index_0_scan_covers_the_new_pairs_within_the_closure", as_set(&d.ind0_all).is_superset(&added) && as_set(&d.ind0_all).is_subset(&c_now));
             chk!(r, "delta_no_index_is_exactly_the_new_pairs", as_set(&d.none_get) == added && as_set(&d.none_all) == added && no_dups(&d.none_get));
             chk!(r, "new_is_empty_after_the_merge", n.full_contains.is_empty() && n.full_all.is_empty() && n.ind0_all.is_empty() && n.none_get.is_empty());
-            let _ = known_prev;
-            known_prev = c_prev;
          }
       }
       // after the two closing iterations everything offered is in total and delta is empty
@@ -197,8 +218,272 @@ mod imp {
       }
       chk!(r, "index_insert_builds_the_same_closure", read(&direct).full_contains == c_all);
    }
+
+   // ---------------------------------------------------------------------------------------------------------------
+   // ternary provider r(K, T, T): one binary eqrel per key (eqrel_ternary.rs), same protocol
+   use ascent_byods_rels::eqrel_ternary::{EqRel2IndCommonWithReverse, ToEqRel2Ind0, ToEqRel2Ind0_1, ToEqRel2Ind1, ToEqRel2Ind1_2, ToEqRel2IndFull, ToEqRel2IndNone};
+   const K3: usize = 2;
+   const D3: usize = 3;
+   type Rows = BTreeSet<(u8, u8, u8)>;
+   type Tern = EqRel2IndCommonWithReverse<u8, u8>;
+
+   fn closure3(p: &Rows) -> Rows {
+      let mut out = Rows::new();
+      for k in 0..K3 as u8 {
+         let mut r = [[false; D3]; D3];
+         for &(kk, a, b) in p {
+            if kk == k {
+               let (a, b) = (a as usize, b as usize);
+               r[a][b] = true;
+               r[b][a] = true;
+               r[a][a] = true;
+               r[b][b] = true;
+            }
+         }
+         for m in 0..D3 {
+            for i in 0..D3 {
+               for j in 0..D3 {
+                  if r[i][m] && r[m][j] {
+                     r[i][j] = true;
+                  }
+               }
+            }
+         }
+         for i in 0..D3 {
+            for j in 0..D3 {
+               if r[i][j] {
+                  out.insert((k, i as u8, j as u8));
+               }
+            }
+         }
+      }
+      out
+   }
+
+   struct Views3 {
+      full_contains: Rows,
+      full_get: Rows,
+      full_all: Vec<(u8, u8, u8)>,
+      none_get: Vec<(u8, u8, u8)>,
+      none_all: Vec<(u8, u8, u8)>,
+      ind0_get: Vec<(u8, u8, u8)>,
+      ind0_all: Vec<(u8, u8, u8)>,
+      ind01_get: Vec<(u8, u8, u8)>,
+      ind01_all: Vec<(u8, u8, u8)>,
+      ind1_get: Vec<(u8, u8, u8)>,
+      ind1_all: Vec<(u8, u8, u8)>,
+      ind12_get: Vec<(u8, u8, u8)>,
+      ind12_all: Vec<(u8, u8, u8)>,
+   }
+   fn read3(c: &Tern) -> Views3 {
+      let to_full = ToEqRel2IndFull::<u8, u8>::default();
+      let to_none = ToEqRel2IndNone::<u8, u8>::default();
+      let to_0 = ToEqRel2Ind0::<u8, u8>::default();
+      let to_01 = ToEqRel2Ind0_1::<u8, u8>::default();
+      let to_1 = ToEqRel2Ind1::<u8, u8>::default();
+      let to_12 = ToEqRel2Ind1_2::<u8, u8>::default();
+      let full = to_full.to_rel_index(c);
+      let none = to_none.to_rel_index(c);
+      let i0 = to_0.to_rel_index(c);
+      let i01 = to_01.to_rel_index(c);
+      let i1 = to_1.to_rel_index(c);
+      let i12 = to_12.to_rel_index(c);
+      let mut v = Views3 {
+         full_contains: Rows::new(),
+         full_get: Rows::new(),
+         full_all: vec![],
+         none_get: vec![],
+         none_all: vec![],
+         ind0_get: vec![],
+         ind0_all: vec![],
+         ind01_get: vec![],
+         ind01_all: vec![],
+         ind1_get: vec![],
+         ind1_all: vec![],
+         ind12_get: vec![],
+         ind12_all: vec![],
+      };
+      for k in 0..K3 as u8 {
+         if let Some(it) = i0.index_get(&(k,)) {
+            for (a, b) in it {
+               v.ind0_get.push((k, *a, *b));
+            }
+         }
+         for a in 0..D3 as u8 {
+            if let Some(it) = i01.index_get(&(k, a)) {
+               for (b,) in it {
+                  v.ind01_get.push((k, a, *b));
+               }
+            }
+            for b in 0..D3 as u8 {
+               if full.contains_key(&(k, a, b)) {
+                  v.full_contains.insert((k, a, b));
+               }
+               if let Some(it) = full.index_get(&(k, a, b)) {
+                  if it.count() == 1 {
+                     v.full_get.insert((k, a, b));
+                  } else {
+                     v.full_get.insert((255, 255, 255));
+                  }
+               }
+            }
+         }
+      }
+      for a in 0..D3 as u8 {
+         if let Some(it) = i1.index_get(&(a,)) {
+            for (k, b) in it {
+               v.ind1_get.push((*k, a, *b));
+            }
+         }
+         for b in 0..D3 as u8 {
+            if let Some(it) = i12.index_get(&(a, b)) {
+               for (k,) in it {
+                  v.ind12_get.push((*k, a, b));
+               }
+            }
+         }
+      }
+      for ((k, a, b), it) in full.iter_all() {
+         for _ in it {
+            v.full_all.push((*k, *a, *b));
+         }
+      }
+      if let Some(it) = none.index_get(&()) {
+         for (k, a, b) in it {
+            v.none_get.push((*k, *a, *b));
+         }
+      }
+      for (_, it) in none.iter_all() {
+         for (k, a, b) in it {
+            v.none_all.push((*k, *a, *b));
+         }
+      }
+      for (k, it) in i0.iter_all() {
+         for (a, b) in it {
+            v.ind0_all.push((k.0, *a, *b));
+         }
+      }
+      for ((k, a), it) in i01.iter_all() {
+         for (b,) in it {
+            v.ind01_all.push((*k, *a, *b));
+         }
+      }
+      for (a, it) in i1.iter_all() {
+         for (k, b) in it {
+            v.ind1_all.push((*k, a.0, *b));
+         }
+      }
+      for ((a, b), it) in i12.iter_all() {
+         for (k,) in it {
+            v.ind12_all.push((*k, *a, *b));
+         }
+      }
+      let _ = (full.len_estimate(), none.len_estimate(), i0.len_estimate(), i01.len_estimate(), i1.len_estimate(), i12.len_estimate());
+      v
+   }
+   fn set3(v: &[(u8, u8, u8)]) -> Rows { v.iter().cloned().collect() }
+   fn nodup3(v: &[(u8, u8, u8)]) -> bool { set3(v).len() == v.len() }
+   /// exact: the view is exactly `want`; covering: it contains `want` and stays inside `within` (a delta scan may over-approximate
+   /// within the closure, which is sound for semi-naive evaluation)
+   fn exact(v: &[(u8, u8, u8)], want: &Rows) -> bool { set3(v) == *want && nodup3(v) }
+   fn covering(v: &[(u8, u8, u8)], want: &Rows, within: &Rows) -> bool { set3(v).is_superset(want) && set3(v).is_subset(within) }
+
+   /// codes: 0 stop, 1..=18 derive (k, a, b) = ((c-1)/9, ((c-1)%9)/3, (c-1)%3), 19 end of iteration, 20 end of stratum
+   pub fn protocol3<const L: usize>(s: &mut dyn Src, r: &mut Report) {
+      let mut ops = vec![];
+      let mut stopped = false;
+      for _ in 0..L {
+         let c = s.byte();
+         s.require(c <= 20 && (!stopped || c == 0));
+         if c == 0 {
+            stopped = true;
+         } else {
+            ops.push(c);
+         }
+      }
+      if s.rejected() {
+         return;
+      }
+      ops.push(20);
+      r.note(format!("codes (1 + 9k + 3a + b = derive (k, a, b); 19 = end of iteration; 20 = end of stratum) = {:?}", ops));
+      let mut evs = vec![];
+      for &c in &ops {
+         if c == 20 {
+            evs.extend([19, 19, 20]);
+         } else {
+            evs.push(c);
+         }
+      }
+      let mut new = Tern::default();
+      let mut delta = Tern::default();
+      let mut total = Tern::default();
+      let mut to_full_w = ToEqRel2IndFull::<u8, u8>::default();
+      let to_full = ToEqRel2IndFull::<u8, u8>::default();
+      let mut offered = Rows::new();
+      let mut merged = Rows::new();
+      let mut new_this_iter = Rows::new();
+      for &c in &evs {
+         if c == 20 {
+            delta = std::mem::take(&mut total);
+            new = Tern::default();
+            let known = closure3(&merged);
+            let d = read3(&delta);
+            chk!(r, "ternary_stratum_start_delta_is_everything_known", d.full_contains == known && exact(&d.none_get, &known));
+            continue;
+         }
+         if c <= 18 {
+            let c = c - 1;
+            let row = (c / 9, (c % 9) / 3, c % 3);
+            offered.insert(row);
+            let in_total = to_full.to_rel_index(&total).contains_key(&row);
+            let in_delta = to_full.to_rel_index(&delta).contains_key(&row);
+            chk!(r, "ternary_guard_total_or_delta_knows_exactly_the_merged_closure", (in_total || in_delta) == closure3(&merged).contains(&row));
+            if !in_total && !in_delta {
+               let already = closure3(&new_this_iter).contains(&row);
+               let fresh = to_full_w.to_rel_index_write(&mut new).insert_if_not_present(&row, ());
+               chk!(r, "ternary_insert_if_not_present_reports_new_information_exactly", fresh == !already);
+               new_this_iter.insert(row);
+            }
+         } else {
+            RelIndexMerge::merge_delta_to_total_new_to_delta(&mut new, &mut delta, &mut total);
+            let c_prev = closure3(&merged);
+            merged = offered.clone();
+            let c_now = closure3(&merged);
+            new_this_iter.clear();
+            let added: Rows = c_now.difference(&c_prev).cloned().collect();
+            let t = read3(&total);
+            let d = read3(&delta);
+            let n = read3(&new);
+            chk!(r, "ternary_total_full_index_is_the_previous_closure", t.full_contains == c_prev && t.full_get == c_prev && exact(&t.full_all, &c_prev));
+            chk!(r, "ternary_total_no_index_is_the_previous_closure", exact(&t.none_get, &c_prev) && exact(&t.none_all, &c_prev));
+            chk!(r, "ternary_total_index_0_is_the_previous_closure", exact(&t.ind0_get, &c_prev) && exact(&t.ind0_all, &c_prev));
+            chk!(r, "ternary_total_index_0_1_is_the_previous_closure", exact(&t.ind01_get, &c_prev) && exact(&t.ind01_all, &c_prev));
+            chk!(r, "ternary_total_index_1_is_the_previous_closure", exact(&t.ind1_get, &c_prev) && exact(&t.ind1_all, &c_prev));
+            chk!(r, "ternary_total_index_1_2_is_the_previous_closure", exact(&t.ind12_get, &c_prev) && exact(&t.ind12_all, &c_prev));
+            chk!(r, "ternary_delta_full_index_is_exactly_the_new_rows", d.full_contains == added && d.full_get == added && exact(&d.full_all, &added));
+            chk!(r, "ternary_delta_no_index_is_exactly_the_new_rows", exact(&d.none_get, &added) && exact(&d.none_all, &added));
+            chk!(r, "ternary_delta_index_0_covers_the_new_rows_within_the_closure", covering(&d.ind0_get, &added, &c_now) && covering(&d.ind0_all, &added, &c_now));
+            chk!(r, "ternary_delta_index_0_1_covers_the_new_rows_within_the_closure", covering(&d.ind01_get, &added, &c_now) && covering(&d.ind01_all, &added, &c_now));
+            chk!(r, "ternary_delta_index_1_covers_the_new_rows_within_the_closure", covering(&d.ind1_get, &added, &c_now) && covering(&d.ind1_all, &added, &c_now));
+            chk!(r, "ternary_delta_index_1_2_covers_the_new_rows_within_the_closure", covering(&d.ind12_get, &added, &c_now) && covering(&d.ind12_all, &added, &c_now));
+            chk!(r, "ternary_new_is_empty_after_the_merge", n.full_contains.is_empty() && n.full_all.is_empty() && n.none_get.is_empty());
+            if !r.failed.is_empty() && r.notes.len() < 3 {
+               r.note(format!("after a merge: expected total = {:?}, expected new rows in delta = {:?}", c_prev, added));
+               r.note(format!("total views: full {:?} none {:?} [0] {:?} [0,1] {:?} [1] {:?} [1,2] {:?}", t.full_contains, t.none_get, t.ind0_get, t.ind01_get, t.ind1_get, t.ind12_get));
+               r.note(format!("delta views: full {:?} none {:?} [0] {:?} [0,1] {:?} [1] {:?} [1,2] {:?} / scans [1] {:?} [1,2] {:?}", d.full_contains, d.none_get, d.ind0_get, d.ind01_get, d.ind1_get, d.ind12_get, d.ind1_all, d.ind12_all));
+            }
+         }
+      }
+      // the relation as the next stratum sees it (everything sits in `delta` after the final restart)
+      let d = read3(&delta);
+      let c_all = closure3(&offered);
+      chk!(r, "ternary_fixpoint_is_the_per_key_equivalence_closure", d.full_contains == c_all && exact(&d.none_get, &c_all) && covering(&d.ind0_get, &c_all, &c_all)
+         && covering(&d.ind01_get, &c_all, &c_all) && covering(&d.ind1_get, &c_all, &c_all) && covering(&d.ind12_get, &c_all, &c_all));
+   }
 }
 #[cfg(not(kani))]
-pub use imp::protocol;
+pub use imp::{protocol, protocol3};
 #[cfg(kani)]
 pub fn protocol<const L: usize>(_s: &mut dyn Src, _r: &mut Report) {}
+#[cfg(kani)]
+pub fn protocol3<const L: usize>(_s: &mut dyn Src, _r: &mut Report) {}
